@@ -136,6 +136,24 @@ def r2(R2, cfg, F, only_waits=False):
     waits = F.calls_to(r'^utils::private::Condvar::wait_while$')
     for c in waits:
         R2.ok(cfg, c.body.path, 'uses-wait_while', c.loc())
+    # the wrappers do what their names say, with either lock back end: wait_while really waits inside its loop (or it spins),
+    # notify_all really notifies (or every waiter sleeps for ever)
+    wb = F.body('utils::private::Condvar::wait_while')
+    nb = F.body('utils::private::Condvar::notify_all')
+    if not wb or not nb:
+        R2.missing(cfg, 'utils::private::Condvar::wait_while / notify_all')
+    else:
+        rw = [c for c in wb.calls() if c.callee and re.search(r'^(std::sync|parking_lot)::Condvar::wait$', c.callee.best)]
+        preds = [x for x in wb.calls() if user_call_kind(x) == 'indirect']
+        ok = len(rw) == 1 and len(preds) >= 1 and all(any(g is p_ and t for g, t in common.call_truth_guards(wb, rw[0].bb)) or
+                                                       wb.dominates(p_.bb, rw[0].bb) for p_ in preds[:1])
+        # every turn of the loop passes the wait: with the wait removed the predicate cannot be reached again from itself
+        if ok:
+            ok = not (preds[0].bb in wb.reachable([preds[0].target] if preds[0].target is not None else [], removed_blocks=[rw[0].bb]))
+        R2.check(ok, cfg, wb.path, 'wait_while-waits-on-every-turn', 'Condvar::wait_while must call Condvar::wait on every turn of its predicate loop (a loop that does not wait spins; a wait outside the loop returns on any wake-up)', wb.loc())
+        rn = [c for c in nb.calls() if c.callee and re.search(r'^(std::sync|parking_lot)::Condvar::notify_all$', c.callee.best)]
+        ok = len(rn) == 1 and common.inevitable(nb, [], rn[0].bb) and common.strip_refs(common.deep_path(nb, rn[0].args[0]))[:1] == ['arg1']
+        R2.check(ok, cfg, nb.path, 'notify_all-notifies', 'Condvar::notify_all must call notify_all of the wrapped condition variable, unconditionally', nb.loc())
 
 
 def contained_closures(F, b):
@@ -309,6 +327,34 @@ def r4(R4, cfg, F):
         return
     ok, why_rl = common.reload_waits_for_own_token(rl)
     R4.check(ok, cfg, rl.path, 'wait-only-after-send-ok-on-own-token', 'reload must block only when its message was sent, waiting for the very token it put in the message: ' + why_rl, rl.loc())
+    # what each side writes into the slot once its wait is over: the answer (Some(token)) / nothing (the answer was consumed)
+    for fn, wantv in (('notify', 'Some'), ('wait_for_answer', 'None')):
+        hb = F.body('hot_reloading::Answers::%s' % fn)
+        if not hb:
+            continue
+        ww = [c for c in hb.calls() if c.callee and c.callee.best == 'utils::private::Condvar::wait_while']
+        wr = []
+        for bb, j, st in hb.assigns():
+            pl = st['place']
+            if pl['p'] and pl['p'][0] == 'deref' and not hb.blocks[bb]['cleanup']:
+                roots = hb.call_roots(pl['l'])
+                if any(r.callee and re.search(r'MutexGuard<.*> as std::ops::DerefMut>::deref_mut$', r.callee.best) for r in roots):
+                    wr.append((bb, st))
+        tk = [c for c in hb.calls() if c.callee and c.callee.best == 'std::option::Option::<T>::take' and wantv == 'None']
+        ok = len(ww) == 1 and (len(wr) == 1 or (not wr and len(tk) == 1))
+        if ok and wr:
+            bb, st = wr[0]
+            rv = st['rv']
+            if rv['k'] == 'use' and rv['op'].get('k') in ('copy', 'move'):
+                lit = agg_direct(hb, rv['op'])
+                rv = lit['rv'] if lit is not None else rv
+            ok = rv['k'] == 'aggregate' and rv.get('variant_name') == wantv and hb.dominates(ww[0].bb, bb) and common.inevitable(hb, [], bb)
+            if ok and wantv == 'Some':
+                ok = common.value_built_from(hb, rv['ops'][0], at=bb) == ['arg2']
+        elif ok:
+            ok = hb.dominates(ww[0].bb, tk[0].bb) and common.inevitable(hb, [], tk[0].bb)
+        R4.check(ok, cfg, hb.path, 'slot:=' + wantv, 'after its wait, Answers::%s must store %s into the slot on every path (otherwise the other side waits for ever)'
+                 % (fn, 'Some(its token)' if wantv == 'Some' else 'None (the answer is consumed)'), hb.loc())
     # the waiter waits for its own token; the notifier waits for an empty slot
     for fn, want in (('wait_for_answer', 'own-token'), ('notify', 'empty-slot')):
         hb = F.body('hot_reloading::Answers::%s' % fn)
